@@ -43,6 +43,20 @@ def build_scenarios(ck, sr, cfgs, seeds):
                     i = len(scripts)
                     scripts.append(base + " ; replay %s 1 ; st" % tgt)
                     inj_desc[i] = [None]; meta.append((name, k, tgt, nm))
+            full0 = prefix_script(cfg, seed, trace, len(trace))
+            # the application-data gate in every handshake state: on an established session (keys active both ways) the
+            # receiver's hsState is overwritten with each SSL_HS_* value, then a genuine sealed application record arrives
+            for side in ("c", "s"):
+                other = "s" if side == "c" else "c"; din = "c2s" if side == "s" else "s2c"
+                for hsv in list(range(1, 41)) + [255]:     # 0 = HELLO_REQUEST: only reachable with rehandshaking compiled in
+                    scripts.append(full0 + " ; seths %s %d ; app %s 6869 ; step %s ; st" % (side, hsv, other, din))
+                    meta.append((name, len(trace), side, "gate:hs=%d" % hsv))
+                # a misbehaving authenticated peer: correctly protected records of the wrong kind in DONE
+                for (rt, ht, body, nm) in ((22, 0, "-", "hs:HelloRequest"), (22, 1, "0303" + "00" * 32 + "00", "hs:ClientHello"), (22, 20, "00" * 12, "hs:Finished"),
+                                          (20, 0, "01", "ccs"), (21, 0, "0164", "alert:warn:no_renegotiation"), (21, 0, "0264", "alert:fatal:no_renegotiation"),
+                                          (21, 0, "015a", "alert:warn:user_canceled"), (23, 0, "-", "app:empty")):
+                    scripts.append(full0 + " ; forge %s %d %d %s ; step %s ; app %s 6869 ; step %s ; app %s 6a ; st" % (other, rt, ht, body, din, other, din, side))
+                    meta.append((name, len(trace), side, "forge:" + nm))
             # legal handshake then data both ways, then replay of a data record
             full = prefix_script(cfg, seed, trace, len(trace))
             i = len(scripts)
@@ -84,7 +98,7 @@ def run(ck):
     ck.regen([("consts.sh",), ("gen_defines.py",)])
     ck.coq_properties()
     sr = sesslib.SessRun(ck)
-    cfgs = ["tls12", "tls13", "tls13c_12s", "tls12_cauth", "tls13_cauth", "tls12_cbc"] if ck.tier == "quick" else list(CONFIGS)
+    cfgs = ["tls12", "tls13", "tls13c_12s", "tls12_cauth", "tls13_cauth", "tls12_cbc", "tls12_resumed_id", "tls12_resumed_ticket", "tls13_resumed_psk"] if ck.tier == "quick" else list(CONFIGS)
     seeds = [ck.seed] if ck.tier == "quick" else [ck.seed, ck.seed + 1, ck.seed + 2]
     scripts, inj_desc, meta = build_scenarios(ck, sr, cfgs, seeds)
     outs = sr.run(scripts)
@@ -98,6 +112,11 @@ def run(ck):
     for si, st, d in back:
         if st.appdata:
             legit = st.kind == "step" and st.pre["done"] == 1
+            # fabricated-state sweep only: the <= 1.2 gate deliberately admits hsState = SERVER_HELLO with read protection on
+            # (a client that sent a renegotiation ClientHello); with rehandshaking compiled out no real session reaches that
+            # combination - it is produced here by overwriting hsState - and the C01 theorem lists it in deliver_state
+            if meta[si][3].startswith("gate:") and st.pre["v"] == 0 and st.pre["hs"] == 2 and st.pre["R"]:
+                ck.count("gate_sweep_rehandshake_allowance"); legit = True
             if not legit:
                 ck.spec_violation("appdata:%s:v%d:hs%d:R%d:%s" % (st.kind, st.pre["v"], st.pre["hs"], st.pre["R"], d.get("prot")),
                                   "application data %s reported to the %s application from a %s record in hsState %d (handshake complete=%d, read protection=%d)" % (
